@@ -31,6 +31,10 @@ def run(tier, seed, res, lean):
     sd = pmap(suite_sched.run_steady, [(seed * 389 + i + 9, i, tier != 'quick') for i in range(16)])
     problems += [p for o in sd for p in o[1]]
     res.coverage['steady_line_sweep_runs'] = sum(o[0]['steady_runs'] for o in sd)
+    # two threads in ONE group of a GroupBy whose ids have a Python-level order comparison (a gate): every cut-in point
+    gs, gp = suite_sched.run_group_sweep((seed, tier != 'quick'))
+    problems += gp
+    res.coverage['group_sweep_runs'] = gs['group_runs']
     for p in problems[:6]:
         kind = 'c11-lock' if 'without holding its lock' in p['msg'] else 'c11-value'
         res.violations.append(Violation(kind, p['msg'][:400], {'suite': 'S-SCHED', **p}))
